@@ -82,14 +82,14 @@ fn pa_header_and_keys(c: &mut Cursor<&[u8]>) -> Result<u8, ()> {
 // UNVERIFIED(not run to completion within the time budget): total!(c02_patch_archive_encoding_info_n41, 41, 6, true, "alloc", |c, d| pa::parse_encoding_info(&mut c, 16));
 // UNVERIFIED(not run to completion within the time budget): total!(c02_patch_archive_encoding_info_n44, 44, 8, true, "alloc", |c, d| pa::parse_encoding_info(&mut c, 16));
 // @end
-// UNVERIFIED harness prop=C02 tier=quick timeout=900 role=patch-archive-block-table-alloc
+// @harness prop=C02 tier=quick timeout=900 role=patch-archive-block-table-alloc
 // @bounds 36 symbolic bytes, block_count symbolic u16, file key size 16
 // @encodes cascette_formats::patch_archive::parser::parse_block_table
-// @catches KF(minor): Vec::with_capacity(block_count) reserves up to 65535 * 64 B = 4 MiB for a 10-byte header before any table byte is read
-// UNVERIFIED(not run to completion within the time budget): total!(c02_patch_archive_block_table_alloc, 36, 4, true, "KF:patch_archive_block_table allocation request out of proportion to input", |c, d| {
-// UNVERIFIED(not run to completion within the time budget):     let bc: u16 = kani::any();
-// UNVERIFIED(not run to completion within the time budget):     pa::parse_block_table(&mut c, bc, 16)
-// UNVERIFIED(not run to completion within the time budget): });
+// @catches regression of patch patch_archive_block_table: Vec::with_capacity(block_count) reserving up to 65535 * 64 B = 4 MiB for a 10-byte header before any table byte is read
+total!(c02_patch_archive_block_table_alloc, 36, 4, true, "parse_block_table: reservation out of proportion to input", |c, d| {
+    let bc: u16 = kani::any();
+    pa::parse_block_table(&mut c, bc, 16)
+});
 
 // ---- ZBSDIFF ----------------------------------------------------------------------------------------------------
 fn zb_header(c: &mut Cursor<&[u8]>) -> Result<(), ()> {
@@ -221,28 +221,36 @@ fn c08_zbsdiff_control_value_rt() {
     std::mem::forget((r, w, cb));
 }
 
-// UNVERIFIED harness prop=C08 tier=quick timeout=900 role=zbsdiff-control-value-min
-// @bounds one control entry with seek_offset = i64::MIN (a value the i64 field can hold but sign-magnitude cannot encode)
-// @encodes cascette_formats::zbsdiff::utils::ControlBlock::to_compressed, cascette_formats::zbsdiff::utils::offtout
-// @catches KF: offtout negates i64::MIN (overflow panic in dev, silently written as -0 in release) instead of rejecting the value
+// @harness prop=C08 tier=quick timeout=900 role=zbsdiff-sign-magnitude-codec
+// @bounds every i64 value (symbolic, including i64::MIN) through offtout / offtin; ControlEntry::validate on symbolic fields
+// @encodes cascette_formats::zbsdiff::utils::offtout, cascette_formats::zbsdiff::utils::offtin, cascette_formats::zbsdiff::utils::ControlEntry::validate
+// @assumes std::fmt::format stubbed (error text)
+// @catches regression of patch zbsdiff_offtout_min: negation overflow for i64::MIN, i64::MIN accepted by validate although it has no sign-magnitude encoding; sign bit on the wrong byte, magnitude in two's complement
 #[kani::proof]
 #[kani::unwind(10)]
 #[kani::stub(std::fmt::format, fmt_format_empty)]
-#[kani::stub(cascette_formats::zbsdiff::utils::decompress_zlib, zlib_identity)]
-#[kani::stub(cascette_formats::zbsdiff::utils::compress_zlib, zlib_identity)]
 fn c08_zbsdiff_control_value_min() {
-    let v = ControlEntry::new(1, 0, i64::MIN);
-    let cb = ControlBlock::with_entries(vec![v.clone()]).unwrap();
-    let w = cb.to_compressed();
-    kani::cover!(true, "reached");
-    if let Ok(w) = &w {
-        let r = ControlBlock::from_compressed(w);
-        if let Ok(cb2) = &r {
-            assert!(cb2.entries[0] == v, "KF:zbsdiff_offtout_min value written and read back differently");
-        }
-        std::mem::forget(r);
+    let v: i64 = kani::any();
+    let enc = cascette_formats::zbsdiff::verif_utils::offtout(v); // must not panic for any value
+    if v != i64::MIN {
+        assert!(cascette_formats::zbsdiff::verif_utils::offtin(enc) == v, "offtin(offtout(v)) != v");
+        let mag = if v < 0 { (-(v as i128)) as u64 } else { v as u64 };
+        assert!(enc[7] & 0x80 == if v < 0 { 0x80 } else { 0 }, "sign bit = bit 63");
+        let mut b = enc;
+        b[7] &= 0x7F;
+        assert!(u64::from_le_bytes(b) == mag, "bits 0..62 = magnitude, little-endian");
     }
-    std::mem::forget((w, cb));
+    let (d, e): (i64, i64) = (kani::any(), kani::any());
+    let entry = ControlEntry::new(d, e, v);
+    let ok = {
+        let r = entry.validate();
+        let ok = r.is_ok();
+        std::mem::forget(r);
+        ok
+    };
+    assert!(ok == (d >= 0 && d <= 10_000_000 && e >= 0 && e <= 10_000_000 && v != i64::MIN), "ControlEntry::validate: size limits and representable seek offset");
+    kani::cover!(v == i64::MIN, "i64::MIN");
+    kani::cover!(ok && v < 0, "valid entry with a negative seek");
 }
 
 // ---- root ----------------------------------------------------------------------------------------------------------
@@ -268,12 +276,12 @@ fn root_ver(k: u8) -> RootVersion {
 // @bounds block header bytes symbolic: 12-byte V1 header (RootBlockHeader::read), and RootBlock::parse on exactly one header (12 / 17 / 17 bytes for V1 / V2-V3 / V4) so the record count is symbolic and no record follows
 // @encodes cascette_formats::root::block::RootBlockHeader::read_options, cascette_formats::root::block::RootBlock::parse
 // @assumes std::fmt::format stubbed; allocator spy
-// @catches KF(bounded): record arrays reserved from num_records (capped at 1,000,000 by the parser: tens of MB for a 12..17-byte input)
+// @catches regression of patch root_block: record arrays reserved from num_records (capped only at 1,000,000 by the parser: MBs for a 12..17-byte input)
 // UNVERIFIED(not run to completion within the time budget): total!(c02_root_block_header_n11, 11, 4, false, "alloc", |c, d| RootBlockHeader::read_options(&mut c, Endian::Little, ()));
 // UNVERIFIED(not run to completion within the time budget): total!(c02_root_block_header_n12, 12, 4, true, "alloc", |c, d| RootBlockHeader::read_options(&mut c, Endian::Little, ()));
-// UNVERIFIED(not run to completion within the time budget): total!(c02_root_block_parse_alloc_v1, 12, 4, true, "KF:root_block_record_count allocation request out of proportion to input", |c, d| RootBlock::parse(&mut c, RootVersion::V1, true));
-// UNVERIFIED(not run to completion within the time budget): total!(c02_root_block_parse_alloc_v2, 17, 4, true, "KF:root_block_record_count allocation request out of proportion to input", |c, d| RootBlock::parse(&mut c, RootVersion::V2, true));
-// UNVERIFIED(not run to completion within the time budget): total!(c02_root_block_parse_alloc_v4, 17, 4, true, "KF:root_block_record_count allocation request out of proportion to input", |c, d| RootBlock::parse(&mut c, RootVersion::V4, true));
+total!(c02_root_block_parse_alloc_v1, 12, 4, true, "root block parse: record reservation out of proportion to input", |c, d| RootBlock::parse(&mut c, RootVersion::V1, true));
+total!(c02_root_block_parse_alloc_v2, 17, 4, true, "root block parse: record reservation out of proportion to input", |c, d| RootBlock::parse(&mut c, RootVersion::V2, true));
+total!(c02_root_block_parse_alloc_v4, 17, 4, true, "root block parse: record reservation out of proportion to input", |c, d| RootBlock::parse(&mut c, RootVersion::V4, true));
 // @end
 
 // C08: root header
@@ -309,7 +317,20 @@ macro_rules! root_header_rt {
                 assert!(wl == used, $msg);
                 let i: usize = kani::any();
                 kani::assume(i < used && i < wl);
-                assert!(out[i] == b[i], "write(read(b)) differs from b");
+                // bytes the reader keeps (magic .. padding word) are reproduced; bytes it skips (non-canonical sizes only) are zero-filled
+                if $canon || i < 20 || (used >= 24 && i < 24) {
+                    assert!(out[i] == b[i], "write(read(b)) differs from b");
+                } else {
+                    assert!(out[i] == 0, "skipped header bytes must be rebuilt as zero fill");
+                }
+                // fixed point: the rebuilt header reads back as the same value with the same length
+                let mut c2 = Cursor::new(&out[..wl]);
+                let r2 = RootHeader::read(&mut c2, RootVersion::V3);
+                match &r2 {
+                    Ok(h2) => assert!(*h2 == *h && c2.position() as usize == wl, "read(write(read(b))) differs / has another length"),
+                    Err(_) => assert!(false, "rebuilt header rejected"),
+                }
+                std::mem::forget(r2);
                 std::mem::forget(w);
             }
             std::mem::forget(r);
@@ -320,15 +341,15 @@ macro_rules! root_header_rt {
 // @bounds 12 / 20 / 24 symbolic header bytes (magic arbitrary: everything not "TSFM" is read as big-endian MFST — bytes 0..4 are then rewritten as "MFST", so the magic bytes are fixed to the two spellings); extended headers with header_size in 16..=20 or 24
 // @encodes cascette_formats::root::header::RootHeader::read, cascette_formats::root::header::RootHeader::write
 // @catches endianness chosen differently by reader and writer, padding word dropped, field order
-// UNVERIFIED(not run to completion within the time budget): root_header_rt!(c08_root_header_rt_n12, 12, true, "rebuilt header has a different length");
-// UNVERIFIED(not run to completion within the time budget): root_header_rt!(c08_root_header_rt_n20, 20, true, "rebuilt header has a different length");
-// UNVERIFIED(not run to completion within the time budget): root_header_rt!(c08_root_header_rt_n24, 24, true, "rebuilt header has a different length");
+root_header_rt!(c08_root_header_rt_n12, 12, true, "rebuilt header has a different length");
+root_header_rt!(c08_root_header_rt_n20, 20, true, "rebuilt header has a different length");
+root_header_rt!(c08_root_header_rt_n24, 24, true, "rebuilt header has a different length");
 // @end
-// UNVERIFIED harness prop=C08 tier=quick timeout=900 role=root-header-noncanonical-size
+// @harness prop=C08 tier=quick timeout=900 role=root-header-noncanonical-size
 // @bounds 40 symbolic bytes, accepted extended headers whose header_size is 21..=23 or 25..=99
 // @encodes cascette_formats::root::header::RootHeader::read, cascette_formats::root::header::RootHeader::write
-// @catches KF: read skips header_size-20 bytes but write always emits exactly one 4-byte padding word: the rebuilt header is shorter/longer than its own header_size field says (parse-build is not a fixed point; the blocks after it are then misaligned)
-// UNVERIFIED(not run to completion within the time budget): root_header_rt!(c08_root_header_noncanonical_size, 40, false, "KF:root_header_rebuild_size rebuilt header length differs from the bytes consumed");
+// @catches regression of patch root_header_size: read skips header_size-20 bytes but write always emitted exactly one 4-byte padding word: the rebuilt header is shorter/longer than its own header_size field says (parse-build is not a fixed point; the blocks after it are then misaligned)
+root_header_rt!(c08_root_header_noncanonical_size, 40, false, "rebuilt header length differs from the bytes consumed");
 
 // UNVERIFIED harness prop=C08 tier=quick timeout=900 role=root-header-v2-value
 // @bounds classic V2 header value with symbolic total_files / named_files (all u32 pairs)
